@@ -41,12 +41,14 @@ deriving DecidableEq, Repr
 def buildKeep (minScore maxEvalue : Int) (r : RawHmm) : Bool :=
   !(decide (r.hit.sc ≤ minScore) || decide (maxEvalue ≤ r.ev))
 
-/-- the locus' share of `run_hmmer(…, filter_overlapping=True)`; a locus without a surviving hit
-    has no entry in `results_by_cds`, so `remove_overlapping` is not called for it -/
-def runHmmerGene (cut : Int → Option Int) (minScore maxEvalue : Int) (raw : List RawHmm) : Except HErr (List HHit) :=
+/-- the locus' share of `run_hmmer`: with `filter_overlapping=False` the hits that pass the cuts in
+    hmmscan order; otherwise `remove_overlapping` — a locus without a surviving hit has no entry in
+    `results_by_cds`, so `remove_overlapping` is not called for it -/
+def runHmmerGene (cut : Int → Option Int) (minScore maxEvalue : Int) (raw : List RawHmm)
+    (filterOverlapping : Bool := true) : Except HErr (List HHit) :=
   match (raw.filter (buildKeep minScore maxEvalue)).map (·.hit) with
   | [] => .ok []
-  | hits => HitFilter.removeOverlapping cut 10 hits
+  | hits => if filterOverlapping then HitFilter.removeOverlapping cut 10 hits else .ok hits
 
 /-! ### `domain_identification` -/
 
@@ -69,5 +71,25 @@ def subtypeHits (env : Env) (strip : Int → Int) (raw : List Hit) (domain : Hit
     sub-type database; the gene's entry is the concatenation over its target domains (absent = `[]`) -/
 def findSubtypesGene (env : Env) (target : Int) (strip : Int → Int) (existing raw : List Hit) : List Hit :=
   (existing.filter fun d => d.prof == target).flatMap (subtypeHits env strip raw)
+
+/-! ### `gather_by_query` + the gene loop of `refine_hmmscan_results`: the whole record -/
+
+/-- `gather_by_query`: HSPs `(query gene, hit)` in hmmscan order ↦ the dict gene ↦ *set* of hits, genes
+    in order of first appearance; each set is given by the enumeration "in hmmscan order" (any other
+    enumeration gives the same refinement, `refine_enumeration_invariant`) -/
+def gatherByQuery (raw : List (Int × Hit)) : List (Int × List Hit) :=
+  (firstOcc (raw.map (·.1))).map fun g => (g, (raw.filter fun r => r.1 == g).map (·.2))
+
+/-- `refine_hmmscan_results`: every gene refined on its own; genes whose refinement is empty are left out -/
+def refineRecord (env : Env) (neighbour : Bool) (raw : List (Int × Hit)) : List (Int × List Hit) :=
+  (gatherByQuery raw).filterMap fun g =>
+    let refined := refine env neighbour g.2
+    if refined.isEmpty then none else some (g.1, refined)
+
+/-- the dict lookup `result.get(gene, [])` -/
+def lookupGene (d : List (Int × List Hit)) (g : Int) : List Hit :=
+  match d.find? (fun e => e.1 == g) with
+  | some e => e.2
+  | none => []
 
 end ASV.HitCallers
